@@ -81,6 +81,50 @@ fn random_st(rng: &mut Rng) -> Vec<Elem> {
   elems
 }
 
+fn mask_of(rs: &[Range<u64>], n: u64, unit: u64) -> u64 {
+  let mut m = 0u64;
+  for c in 0..n { if mem(rs, c * unit) { m |= 1 << c; } }
+  m
+}
+
+/// An operand RELATED to `a`: same element structure in time (identical time MOCs, or the same minus its
+/// first / last cell, so that the next element of one operand starts before the other's), space MOCs chosen
+/// among: the same, a superset / subset, an incomparable one, the UNION of the two previous space MOCs.
+/// Keeps the library shape (no interleaving: every time MOC is a subset of the corresponding one of `a`).
+fn related_st(rng: &mut Rng, a: &[Elem]) -> Vec<Elem> {
+  let mut b: Vec<Elem> = Vec::new();
+  let (mut prev_a, mut prev_b, mut last_b) = (0u64, 0u64, 0u64);
+  for e in a {
+    let am = mask_of(&e.1, NS, sunit());
+    let tm = mask_of(&e.0, NT, tunit());
+    let tmb = match rng.below(8) {
+      0 => 0,
+      1 => tm & (tm - 1),                                  // without its first cell
+      2 => { let hi = 63 - tm.leading_zeros() as u64; tm & !(1 << hi) } // without its last cell
+      _ => tm,
+    };
+    let mut sm = match rng.below(7) {
+      0 | 1 => prev_a | prev_b,
+      2 => am,
+      3 => am | (1 << rng.below(NS)),
+      4 => am & !(1 << rng.below(NS)),
+      _ => {
+        let mut m = 1 + rng.below((1 << NS) - 1);
+        for _ in 0..8 { if m & am != m && m & am != am { break; } m = 1 + rng.below((1 << NS) - 1); }
+        m
+      }
+    };
+    if sm == 0 || sm == last_b { sm = 1 + ((sm + 1 + rng.below(14)) % 15); if sm == last_b { sm = 1 + (sm % 15); } }
+    prev_a = am;
+    if tmb != 0 {
+      b.push((ranges_of_mask(tmb, NT as u32, tunit()), ranges_of_mask(sm, NS as u32, sunit())));
+      prev_b = sm;
+      last_b = sm;
+    }
+  }
+  b
+}
+
 fn to_moc2(m: &[Elem]) -> RangeMOC2<u64, Time<u64>, u64, Hpx<u64>> {
   RangeMOC2::new(DT, DS, m.iter().map(|e| RangeMOC2Elem::new(mk_moc(DT, &e.0), mk_moc(DS, &e.1))).collect())
 }
@@ -111,7 +155,8 @@ pub fn c08(sink: &mut Sink, rng: &mut Rng, thorough: bool) {
   let (tp, sp) = (nats(&grid_t()), nats(&grid_s()));
   for i in 0..n {
     let a = random_st(rng);
-    let b = match i % 5 { 0 => a.clone(), 1 => vec![], _ => random_st(rng) };
+    let b = match i % 8 { 0 => a.clone(), 1 => vec![], 2 | 3 | 4 => related_st(rng, &a), _ => random_st(rng) };
+    sink.count(if (2..=4).contains(&(i % 8)) { "pair:related" } else { "pair:independent" });
     let (ta, tb) = (st_txt(&a), st_txt(&b));
     for (x, y, tx, ty) in [(&a, &b, &ta, &tb), (&b, &a, &tb, &ta)] {
       let forms: Vec<(&str, Box<dyn Fn() -> RangeMOC2<u64, Time<u64>, u64, Hpx<u64>>>)> = vec![
@@ -122,7 +167,7 @@ pub fn c08(sink: &mut Sink, rng: &mut Rng, thorough: bool) {
       for (name, f) in forms {
         sink.count(&format!("form:{}", name));
         match std::panic::catch_unwind(AssertUnwindSafe(|| { let m = f(); let d = (m.depth_max_1(), m.depth_max_2()); (d, from_moc2(m)) })) {
-          Err(_) => sink.emit(&format!("st_sem 14 {} {} {} {}", tx, ty, tp, sp), "panic", true),
+          Err(_) => sink.emit(&format!("st_sem 14 {} {} {} {}", tx, ty, tp, sp), &panic_answer(), true),
           Ok((d, out)) => {
             sink.emit(&format!("st_sem 14 {} {} {} {}", tx, ty, tp, sp), &bits_of(&out), !(x.is_empty() && y.is_empty()));
             sink.emit(&format!("st_valid {}", st_txt(&out)), "true", !out.is_empty());
@@ -150,7 +195,7 @@ pub fn c10(sink: &mut Sink, rng: &mut Rng, thorough: bool) {
       let res = std::panic::catch_unwind(AssertUnwindSafe(|| match tt { 14 => fa.union(&fb), 8 => fa.intersection(&fb), _ => fa.difference(&fb) }));
       sink.count(&format!("op:{}", name));
       match res {
-        Err(_) => sink.emit(&format!("st_sem {} {} {} {} {}", tt, ta, tb, tp, sp), "panic", true),
+        Err(_) => sink.emit(&format!("st_sem {} {} {} {} {}", tt, ta, tb, tp, sp), &panic_answer(), true),
         Ok(o) => {
           let out = from_flat(&o);
           sink.emit(&format!("st_sem {} {} {} {} {}", tt, ta, tb, tp, sp), &bits_of(&out), !(a.is_empty() && b.is_empty()));
@@ -163,7 +208,7 @@ pub fn c10(sink: &mut Sink, rng: &mut Rng, thorough: bool) {
     let tm = ranges_of_mask(tmask, NT as u32, tunit());
     let tmr: MocRanges<u64, Time<u64>> = Ranges::new_unchecked(tm.clone()).into();
     match std::panic::catch_unwind(AssertUnwindSafe(|| TimeSpaceMoc::project_on_second_dim(&tmr, &fa))) {
-      Err(_) => sink.emit(&format!("st_tfold {} {} {}", fmt_ranges(&tm), ta, sp), "panic", true),
+      Err(_) => sink.emit(&format!("st_tfold {} {} {}", fmt_ranges(&tm), ta, sp), &panic_answer(), true),
       Ok(s) => {
         let rs = to_u64_ranges(&s.0 .0);
         let bits: String = gs.iter().map(|p| if mem(&rs, *p) { '1' } else { '0' }).collect();
@@ -174,7 +219,7 @@ pub fn c10(sink: &mut Sink, rng: &mut Rng, thorough: bool) {
     let sm = ranges_of_mask(smask, NS as u32, sunit());
     let smr: MocRanges<u64, Hpx<u64>> = Ranges::new_unchecked(sm.clone()).into();
     match std::panic::catch_unwind(AssertUnwindSafe(|| TimeSpaceMoc::project_on_first_dim(&smr, &fa))) {
-      Err(_) => sink.emit(&format!("st_sfold {} {} {}", fmt_ranges(&sm), ta, tp), "panic", true),
+      Err(_) => sink.emit(&format!("st_sfold {} {} {}", fmt_ranges(&sm), ta, tp), &panic_answer(), true),
       Ok(t) => {
         let rs = to_u64_ranges(&t.0 .0);
         let bits: String = gt.iter().map(|p| if mem(&rs, *p) { '1' } else { '0' }).collect();
@@ -212,7 +257,7 @@ pub fn c09(sink: &mut Sink, rng: &mut Rng, thorough: bool) {
         from_moc2(RangeMOC2::<u64, Time<u64>, u64, Hpx<u64>>::from_ranges_and_fixed_depth_cells(DT, DS, obs.iter().map(|(t, s)| (t.start * tunit()..t.end * tunit(), *s)), Some(cap)))
       }));
       sink.count("path:ranges-cells-builder");
-      match res { Err(_) => sink.emit(&op, "panic", true), Ok(out) => { sink.emit(&op, &bits_of(&out), nobs > 1); } }
+      match res { Err(_) => sink.emit(&op, &panic_answer(), true), Ok(out) => { sink.emit(&op, &bits_of(&out), nobs > 1); } }
       // (b) streaming builder on (time cell, space cell): unit observations
       let unit_obs: Vec<(u64, u64)> = obs.iter().map(|(t, s)| (t.start, *s)).collect();
       let utxt = if unit_obs.is_empty() { "_".to_string() } else { unit_obs.iter().map(|(t, s)| format!("{}-{}@{}-{}", t * tunit(), (t + 1) * tunit(), s * sunit(), (s + 1) * sunit())).collect::<Vec<_>>().join(";") };
@@ -221,7 +266,7 @@ pub fn c09(sink: &mut Sink, rng: &mut Rng, thorough: bool) {
       }));
       sink.count("path:cells-builder");
       let opu = format!("st_obs {} {} {}", utxt, tp, sp);
-      match res { Err(_) => sink.emit(&opu, "panic", true), Ok(out) => { sink.emit(&opu, &bits_of(&out), nobs > 1); } }
+      match res { Err(_) => sink.emit(&opu, &panic_answer(), true), Ok(out) => { sink.emit(&opu, &bits_of(&out), nobs > 1); } }
     }
     // (c) the range-2D path used by the store and MOCPy
     let times: Vec<Range<u64>> = obs.iter().map(|(t, _)| t.start * tunit()..t.end * tunit()).collect();
@@ -229,7 +274,7 @@ pub fn c09(sink: &mut Sink, rng: &mut Rng, thorough: bool) {
     if !obs.is_empty() {
       let res = std::panic::catch_unwind(AssertUnwindSafe(|| TimeSpaceMoc::<u64, u64>::create_from_time_ranges_spatial_coverage(times.clone(), cov.clone(), DT)));
       sink.count("path:ranges2d");
-      match res { Err(_) => sink.emit(&op, "panic", true), Ok(o) => { let out = from_flat(&o); sink.emit(&op, &bits_of(&out), nobs > 1); } }
+      match res { Err(_) => sink.emit(&op, &panic_answer(), true), Ok(o) => { let out = from_flat(&o); sink.emit(&op, &bits_of(&out), nobs > 1); } }
     }
   }
 }
